@@ -81,9 +81,17 @@ fn build(case: &Value) -> Built {
             match e.0.as_str() { "165" => e.1 = "ABC".into(), "433" => e.1 = "AOK".into(), "434" => e.1 = "FPO".into(), "423" => e.1 = "240718123456".into(), _ => {} }
         },
         "short" => for e in b3.iter_mut() {
-            match e.0.as_str() { "165" => e.1 = "ABC/X".into(), "433" => e.1 = "AOK/X".into(), "434" => e.1 = "FPO/X".into(), "423" => e.1 = "2407181234567".into(), _ => {} }
+            match e.0.as_str() { "165" => e.1 = "ABC/X".into(), "433" => e.1 = "AOK/X".into(), "434" => e.1 = "FPO/X".into(), "423" => e.1 = "240718123456".into(), _ => {} }
         },
         _ => {}
+    }
+    for e in b3.iter_mut() {
+        match (fault, e.0.as_str()) {
+            ("b3_433_no_slash", "433") => e.1 = "AOKXY".into(),
+            ("b3_165_short", "165") => e.1 = "AB".into(),
+            ("b3_423_short", "423") => e.1 = "2407181234".into(),
+            _ => {}
+        }
     }
     if fault == "mur_with_colon_digit" {
         for e in b3.iter_mut() {
